@@ -28,6 +28,11 @@ func NewBatch() *batch {
 
 // Put inserts one entry - key, value pair - into the batch
 func (b *batch) Put(key []byte, val []byte) error {
+	if val == nil {
+		// Get() signals a missing key through a nil value, thus a nil value has to be held as an empty (non-nil) one
+		val = make([]byte, 0)
+	}
+
 	b.mutBatch.Lock()
 	b.batch.Put(key, val)
 	b.cachedData[string(key)] = val
